@@ -4,6 +4,7 @@
    theorems quantify over ALL of them). *)
 From Coq Require Import ZArith List Bool.
 From Elys Require Import Base.Res Models.CloseGuard Proofs.CloseGuardProofs Run.CloseGuardRun.
+From Elys Require Import Base.Zdec Models.Health Proofs.HealthProofs.
 Import ListNotations.
 Open Scope Z_scope.
 
@@ -215,3 +216,94 @@ Example C10_nonvacuous :
   option_map p_size (st_perp s2 7 1) = Some 197 /\ st_perp s2 7 2 = None /\
   st_funds s2 7 0 = 1000 + 90 + 55 + 33 /\ st_funds s2 7 1 = 0 /\ st_funds s2 8 0 = 50.
 Proof. vm_compute. repeat split. Qed.
+
+(* ---------- the HEALTH values on the underlying quantities (Models/Health.v: leveragelp GetPositionHealth, perpetual
+   GetMTPHealth as functions of the observed exit value / debt record / MTP fields / swap estimates; tied to the Go text by
+   Props/ArithTieC10b.v and to the keepers' values by the HLev / HPerp cases of every run) ---------- *)
+
+(* leveragelp: health = Quo(exit value, debt). More exit value (pool value of the committed shares) never lowers it, more debt
+   (principal, or interest charged: InterestStacked) never raises it. *)
+Theorem C10_lev_health_monotone : forall e1 e2 d1 d2,
+  0 <= e1 <= e2 -> 0 < d1 <= d2 ->
+  lev_health e1 d1 <= lev_health e2 d1 /\ lev_health e1 d2 <= lev_health e1 d1.
+Proof. exact lev_health_monotone. Qed.
+Print Assumptions C10_lev_health_monotone.
+
+Theorem C10_lev_health_falls_with_interest : forall e b s1 s2 p,
+  0 <= e -> 0 < total_debt b s1 p -> s1 <= s2 -> lev_health_of e b s2 p <= lev_health_of e b s1 p.
+Proof. exact lev_health_anti_interest. Qed.
+Print Assumptions C10_lev_health_falls_with_interest.
+
+(* health <= sf / health > sf as cross-multiplied integer statements (PREC = 10^18, sf raw):
+     health <= sf  ->  exit * 10^36 < (sf*10^18 + 1/2*10^18 + 1) * debt      (value below debt * (sf + half an ulp + 10^-36))
+     exit * 10^18 <= sf * debt  ->  health <= sf ;      health > sf  ->  exit * 10^18 > sf * debt *)
+Theorem C10_lev_health_vs_value : forall e d sfv, 0 <= e -> 0 < d ->
+  (lev_health e d <= sfv -> e * (PREC * PREC) < (sfv * PREC + HALF + 1) * d) /\
+  (e * PREC <= sfv * d -> lev_health e d <= sfv) /\
+  (sfv < lev_health e d -> sfv * d < e * PREC).
+Proof. exact lev_health_le_sf_cross. Qed.
+Print Assumptions C10_lev_health_vs_value.
+
+(* the liquidation guard of leveragelp (the guard C10_only_guarded_items_change is about), when the item's health is the
+   modelled function of exit value and debt: it holds only if the debt is positive and the exit value is below
+   debt * (sf + 0.5*10^-18 + 10^-36); it holds whenever exit value <= debt * sf *)
+Theorem C10_lev_liq_guard_means_value_below_debt_times_sf : forall sfv it exit debt,
+  0 <= exit -> 0 <= debt -> i_health it = Some (lev_health exit debt) -> i_liab it = debt ->
+  lev_liq_guard sfv it = true ->
+  0 < debt /\ exit * (PREC * PREC) < (sfv * PREC + HALF + 1) * debt.
+Proof. exact lev_liq_guard_cross. Qed.
+Print Assumptions C10_lev_liq_guard_means_value_below_debt_times_sf.
+
+Theorem C10_lev_value_below_debt_times_sf_means_liq_guard : forall sfv it exit debt,
+  0 <= exit -> 0 < debt -> i_health it = Some (lev_health exit debt) -> i_liab it = debt ->
+  exit * PREC <= sfv * debt -> lev_liq_guard sfv it = true.
+Proof. exact lev_liq_guard_from_cross. Qed.
+Print Assumptions C10_lev_value_below_debt_times_sf_means_liq_guard.
+
+(* an accepted leveragelp open: exit value strictly above debt * sf *)
+Theorem C10_lev_open_means_value_above_debt_times_sf : forall e d sfv,
+  0 <= e -> 0 < d -> open_ok (lev_health e d) sfv = true -> sfv * d < e * PREC.
+Proof. exact lev_open_ok_cross. Qed.
+Print Assumptions C10_lev_open_means_value_above_debt_times_sf.
+
+(* perpetual, regular case (liabilities, custody and the amount owed positive): health = Quo(c, tl) with c the custody value in
+   the base currency (LONG: swap estimate of the custody; SHORT: the custody) and tl the amount owed in the base currency
+   (LONG: Liabilities + BorrowInterestUnpaidLiability; SHORT: swap estimate of that sum) *)
+Theorem C10_perp_health_regular : forall (long : bool) liab unpaid custody el ec c tl,
+  liab <> 0 -> 0 < custody -> 0 < tl ->
+  (if long then tl = liab + unpaid /\ ec = Some c else el = Some tl /\ c = custody) ->
+  perp_health long liab unpaid custody el ec = Ok (ratio c tl).
+Proof. exact perp_health_regular. Qed.
+Print Assumptions C10_perp_health_regular.
+
+(* LONG: more unpaid interest, same custody value: the health does not rise *)
+Theorem C10_perp_health_falls_with_unpaid_interest : forall liab u1 u2 custody el ec c h1 h2,
+  0 < liab -> 0 <= u1 <= u2 -> 0 < custody -> 0 <= c -> ec = Some c ->
+  perp_health true liab u1 custody el ec = Ok h1 -> perp_health true liab u2 custody el ec = Ok h2 -> h2 <= h1.
+Proof. exact perp_health_long_anti_owed. Qed.
+Print Assumptions C10_perp_health_falls_with_unpaid_interest.
+
+(* SHORT: more custody (funding received / less interest taken out of it), same amount owed: the health does not fall *)
+Theorem C10_perp_health_rises_with_custody : forall liab unpaid c1 c2 el ec tl h1 h2,
+  liab <> 0 -> 0 < c1 <= c2 -> 0 < tl -> el = Some tl ->
+  perp_health false liab unpaid c1 el ec = Ok h1 -> perp_health false liab unpaid c2 el ec = Ok h2 -> h1 <= h2.
+Proof. exact perp_health_short_mono_custody. Qed.
+Print Assumptions C10_perp_health_rises_with_custody.
+
+(* a position without custody is always liquidatable (health 0), one without liabilities never (health = the maximum) *)
+Theorem C10_perp_health_degenerate : forall long liab unpaid custody el ec h,
+  (perp_health long 0 unpaid custody el ec = Ok MAXSORT) /\
+  (custody <= 0 -> liab <> 0 -> perp_health long liab unpaid custody el ec = Ok h -> h = 0).
+Proof. exact perp_health_degenerate. Qed.
+Print Assumptions C10_perp_health_degenerate.
+
+(* the perpetual liquidation guard `health <= sf` and the open check `health > sf` on custody value c and amount owed tl *)
+Theorem C10_perp_liq_guard_means_custody_below_owed_times_sf : forall (long : bool) liab unpaid custody el ec c tl h sfv,
+  liab <> 0 -> 0 < custody -> 0 < tl -> 0 <= c ->
+  (if long then tl = liab + unpaid /\ ec = Some c else el = Some tl /\ c = custody) ->
+  perp_health long liab unpaid custody el ec = Ok h ->
+  (perp_may_liquidate h sfv = true -> c * (PREC * PREC) < (sfv * PREC + HALF + 1) * tl) /\
+  (c * PREC <= sfv * tl -> perp_may_liquidate h sfv = true) /\
+  (open_ok h sfv = true -> sfv * tl < c * PREC).
+Proof. exact perp_liq_guard_cross. Qed.
+Print Assumptions C10_perp_liq_guard_means_custody_below_owed_times_sf.
